@@ -16,6 +16,7 @@ import (
 	"math"
 	"math/big"
 	"runtime"
+	"runtime/debug"
 	"sort"
 	"strings"
 	"sync"
@@ -1055,6 +1056,7 @@ func foreignBytes(r *ev.Run) {
 }
 
 func main() {
+	debug.SetGCPercent(800) // tiny live heap, millions of short-lived decode buffers: fewer collections
 	r := ev.Start("C01", "exploration")
 
 	nSafe := safeMath(r)
